@@ -14,6 +14,7 @@ import (
 	"net"
 	"net/http"
 	"net/url"
+	"os"
 	"strings"
 	"sync"
 	"time"
@@ -242,20 +243,44 @@ func (w *memWriter) Write(b []byte) (int, error) {
 
 // serverDriver runs a real http.Server for the duration of one case.
 type serverDriver struct {
-	srv   *http.Server
-	addr  string
-	done  chan struct{}
-	conns sync.WaitGroup
+	srv     *http.Server
+	network string
+	addr    string
+	done    chan struct{}
+	conns   sync.WaitGroup
+}
+
+var sockSeq int
+
+// listen opens the listener of one case. A TCP listener per case plus one connection per
+// request leaves tens of thousands of loopback ports in TIME_WAIT when 16 shards run (bind
+// then fails with EADDRINUSE, also for every other check on the machine), so the server
+// listens on a socket in Linux' abstract unix namespace: same http.Server, same bytes, no
+// ports. Loopback TCP is the fallback where that is not available.
+func listen() (net.Listener, string) {
+	for try := 0; try < 3; try++ {
+		sockSeq++
+		ln, err := net.Listen("unix", fmt.Sprintf("@verif-c15-%d-%d", os.Getpid(), sockSeq))
+		if err == nil {
+			return ln, "unix"
+		}
+	}
+	var err error
+	for try := 0; try < 5; try++ {
+		var ln net.Listener
+		if ln, err = net.Listen("tcp", "127.0.0.1:0"); err == nil {
+			return ln, "tcp"
+		}
+		time.Sleep(200 * time.Millisecond)
+	}
+	panic("c15: cannot open a listener: " + err.Error())
 }
 
 func newServerDriver(h http.Handler) *serverDriver {
 	mux := http.NewServeMux()
 	mux.Handle("/", h) // cmd/desync: http.Handle("/", handler)
-	ln, err := net.Listen("tcp", "127.0.0.1:0")
-	if err != nil {
-		panic(err)
-	}
-	d := &serverDriver{addr: ln.Addr().String(), done: make(chan struct{})}
+	ln, network := listen()
+	d := &serverDriver{network: network, addr: ln.Addr().String(), done: make(chan struct{})}
 	d.srv = &http.Server{
 		Handler:  mux,
 		ErrorLog: log.New(io.Discard, "", 0),
@@ -285,7 +310,7 @@ func (d *serverDriver) stop() {
 // do writes the request as raw bytes (so that the request target arrives unchanged) and reads
 // until the server closes the connection, which it does only after the handler has returned.
 func (d *serverDriver) do(r Req, body []byte, hasBody bool) response {
-	conn, err := net.DialTimeout("tcp", d.addr, 20*time.Second)
+	conn, err := net.DialTimeout(d.network, d.addr, 20*time.Second)
 	if err != nil {
 		return response{Err: "dial: " + err.Error()}
 	}
